@@ -25,11 +25,10 @@ import multiprocessing as mp
 import os
 import time
 import zlib
-from collections import Counter
 
 import numpy as np
 
-from ..env import assert_tree, seed
+from ..env import REPO, WORK, assert_tree, seed
 
 assert_tree()
 import qutip  # noqa: E402
@@ -43,6 +42,7 @@ from pulser_simulation import (QutipBackend, QutipBackendV2, QutipConfig, QutipE
 from pulser_simulation.qutip_result import QutipResult  # noqa: E402
 from pulser_simulation.simresults import CoherentResults  # noqa: E402
 
+from ..tla import run_tlc, unquote_tla_string  # noqa: E402
 from .common import Verdict, enumerate_points  # noqa: E402
 
 HERE = os.path.dirname(os.path.abspath(__file__))
@@ -51,8 +51,8 @@ TWO = {"ground-rydberg": "rg", "digital": "gh", "XY": "ud"}       # documented s
 CORE_NAME = {"rg": "ground-rydberg", "gh": "digital", "ud": "XY", "rgh": "all"}
 IDS = ["q7", "a", "10", "B"]                                      # register order is NOT the sorted order
 SPACING = 2000.0                                                  # um: isolated atoms
-STATE_TOL = 5e-3      # "same state" band, see module docstring (observed <= 9e-4 outside the finding classes)
-NORM_TOL = 1e-3       # | |psi|^2 - 1 |, |tr rho - 1|  (observed <= 4e-5; the solvers run with normalize_output=False)
+STATE_TOL = 5e-3      # "same state" band, see module docstring (observed <= 9.5e-4 outside the finding classes)
+NORM_TOL = 1e-3       # | |psi|^2 - 1 |, |tr rho - 1|  (observed <= 1.5e-4; the solvers run with normalize_output=False)
 HERM_TOL = 1e-8
 POS_TOL = 1e-5        # lambda_min >= -POS_TOL
 NSHOTS = 4000
@@ -87,15 +87,24 @@ def _crc(rec):
 
 
 def _guard(fn):
-    """A worker never dies: an unexpected exception of the harness itself is a machinery failure."""
+    """A worker never dies.  An exception raised INSIDE the implementation (a frame of the tree under test is on
+    the traceback) at a lattice point is a failed run of a legal configuration, i.e. a violation with clause
+    "run_returns"; an exception of the harness itself is a machinery failure (exit 2)."""
     @functools.wraps(fn)
     def wrapped(rec):
         try:
             return fn(rec)
         except Exception as e:  # noqa: BLE001
             import traceback
-            return {"tests": 0, "reports": [], "obs": {}, "crash": f"{type(e).__name__}: {e}\n{traceback.format_exc()[-1500:]}",
-                    "rec": rec}
+            frames = traceback.extract_tb(e.__traceback__)
+            root = os.path.abspath(REPO) + os.sep
+            inside = [f for f in frames if os.path.abspath(f.filename).startswith(root)]
+            if inside:
+                sig = {"clause": "run_returns", "exc": type(e).__name__, "worker": fn.__name__,
+                       "where": f"{os.path.basename(inside[-1].filename)}:{inside[-1].name}"}
+                return {"tests": 1, "reports": [(sig, {"point": rec, "error": str(e)[:300]})], "obs": {}}
+            return {"tests": 0, "reports": [], "obs": {}, "rec": rec,
+                    "crash": f"{type(e).__name__}: {e}\n{traceback.format_exc()[-1500:]}"}
     return wrapped
 
 
@@ -107,6 +116,28 @@ def pool_map(fn, items, chunk=8):
     ctx = mp.get_context("fork")
     with ctx.Pool(nproc) as pool:
         return list(pool.imap_unordered(fn, items, chunksize=chunk))
+
+
+def simulate_points(tag, module, constants, invariants, num, depth):
+    """TLC -simulate (seeded random walks) on `module`; every state TLC evaluates the invariants on is printed
+    (the walk and the siblings of each of its steps).  Returns (TLCResult, [records])."""
+    pts = []
+
+    def on_line(line):
+        if line.startswith('"PT|'):
+            pts.append(json.loads(unquote_tla_string(line)[3:]))
+
+    gen = (f"---- MODULE MC_{module} ----\nEXTENDS {module}\n"
+           + "\n".join(f"G_{k} == {v}" for k, v in constants.items()) + "\n====\n")
+    cfg = "SPECIFICATION Spec\nCONSTANTS\n" + "\n".join(f"  {k} <- G_{k}" for k in constants) + "\n"
+    cfg += "".join(f"INVARIANT {i}\n" for i in invariants)
+    res = run_tlc(os.path.join(WORK, "C11", tag), f"MC_{module}", cfg, gen, on_line=on_line, workers=1,
+                  simulate=f"num={num}", extra=("-depth", str(depth), "-seed", str(seed() + 11)))
+    if not res.ok:
+        print(f"MACHINERY-FAILURE: TLC -simulate failed on {module}/{tag}: {res.errors[:3]}")
+        print("\n".join(res.tail[-30:]))
+        raise SystemExit(2)
+    return res, pts
 
 
 def bitstr(k, n):
@@ -635,6 +666,17 @@ def times_worker(rec):
             R.bad({**sig0, "clause": "distribution_sums_to_one", "api": "QutipEmulator.run/sampling_dist"},
                   {**det0, "sum": s1})
             break
+    # legacy look-up by time: get_state(t) / sample_state(t) address the state stored for t (1 ns tolerance)
+    if len(sim_t) >= 3 and np.min(np.diff(sim_t)) > 2.5e-3:
+        R.tests += 2
+        j = len(sim_t) // 2
+        got = lres.get_state(float(sim_t[j]), ignore_global_phase=False)
+        if state_dev(got, lres.states[j]) > 1e-12:
+            R.bad({**sig0, "clause": "legacy_evaluation_times", "choice": "get_state(t)"}, {**det0, "t_us": float(sim_t[j])})
+        want = np.asarray(lres[j]._weights(), dtype=float)
+        msg = check_counts(lres.sample_state(float(sim_t[j]), 2000), want, 2000, n)
+        if msg:
+            R.bad({**sig0, "clause": "sampling", "api": "CoherentResults.sample_state(t)"}, {**det0, "why": msg})
     # (d) sampled bitstrings of V2
     for c in tagged.get("bitstrings", []):
         R.tests += 1
@@ -974,12 +1016,28 @@ def run(tier):
         stage("qubit-n2", "EmuQubit", {**qconst, "NAtomsSet": "{2}", "Depth": "2", "FullDepth": "1", "SelMod": "10",
                                        "SelRes": str(seed() % 10)}, QUBIT_LAWS, qjobs())
     else:
-        stage("qubit-n1", "EmuQubit", {**qconst, "NAtomsSet": "{1}", "Depth": "3", "FullDepth": "3", "SelMod": "1",
-                                       "SelRes": "0"}, QUBIT_LAWS, qjobs())
-        stage("qubit-n2", "EmuQubit", {**qconst, "NAtomsSet": "{2}", "Depth": "3", "FullDepth": "2", "SelMod": "60",
-                                       "SelRes": str(seed() % 60)}, QUBIT_LAWS, qjobs())
+        stage("qubit-n1", "EmuQubit", {**qconst, "NAtomsSet": "{1}", "Depth": "3", "FullDepth": "2", "SelMod": "2",
+                                       "SelRes": str(seed() % 2)}, QUBIT_LAWS, qjobs())
+        stage("qubit-n2", "EmuQubit", {**qconst, "NAtomsSet": "{2}", "Depth": "3", "FullDepth": "2", "SelMod": "120",
+                                       "SelRes": str(seed() % 120)}, QUBIT_LAWS, qjobs())
         stage("qubit-n34", "EmuQubit", {**qconst, "NAtomsSet": "{3, 4}", "Depth": "2", "FullDepth": "1", "SelMod": "25",
                                         "SelRes": str(seed() % 25)}, QUBIT_LAWS, qjobs())
+
+    if not quick:
+        # seeded random walks: long programs (up to 7 operations); one printed state in 12 is executed
+        t0 = time.time()
+        res, pts = simulate_points("qubit-walks", "EmuQubit",
+                                   {**qconst, "NAtomsSet": "{1, 2}", "Depth": "7", "FullDepth": "7", "SelMod": "1",
+                                    "SelRes": "0"}, QUBIT_LAWS, num=30, depth=8)
+        uniq = {json.dumps(p_, sort_keys=True): p_ for p_ in pts if len(p_["ops"]) >= 4}
+        sel = [p_ for k_, p_ in sorted(uniq.items()) if (zlib.crc32(k_.encode()) + seed()) % 12 == 0]
+        t1 = time.time()
+        tests = collect(V, "walks", pool_map(qubit_worker, sel, 4), stats)
+        t_impl["qubit-walks/programs"] = round(time.time() - t1, 1)
+        runs.append({"config": "qubit-walks", "module": "EmuQubit", "tlc_distinct": len(uniq), "tlc_generated": len(pts),
+                     "tlc_s": round(t1 - t0, 1), "points_printed": len(pts), "point_executions": len(sel),
+                     "implementation_assertions": tests, "samples": sel[:1] + sel[-1:], "cmd": res.cmd,
+                     "mode": "simulate num=30 depth=8 workers=1, programs of 4..7 operations, 1 in 12 executed"})
 
     # ---- shot-to-shot noise on V2 (no reference: monitor + "the run returns")
     sto = [{"noise": k, "levels": lv, "n": n} for k in ("state_prep", "amplitude", "doppler") for lv in (2, 3)
